@@ -641,8 +641,11 @@ SIGNATURES = {
 }
 
 
-def overlay(length, background='zero', sigs=(), fill=1, fat=False):
-    """Background of `length` bytes with the given signatures stamped on."""
+def overlay(length, background='zero', sigs=(), fill=1, fat=False,
+            corrupt=None):
+    """Background of `length` bytes with the given signatures stamped on.
+    corrupt: {name: byte index} - that byte of the named signature is
+    flipped (a near miss: the signature is then absent)."""
     if background == 'zero':
         buf = bytearray(length)
     elif background == 'random':
@@ -651,6 +654,10 @@ def overlay(length, background='zero', sigs=(), fill=1, fat=False):
         buf = bytearray(build_raw(length, 'ascii', fill).data)
     for name in sigs:
         off, sig, _n = SIGNATURES[name]
+        if corrupt and name in corrupt:
+            sig = bytearray(sig)
+            sig[corrupt[name] % len(sig)] ^= 0x20
+            sig = bytes(sig)
         if off + len(sig) <= length:
             buf[off:off + len(sig)] = sig
     if fat and length > 0x15:
